@@ -573,6 +573,22 @@ class _CanonTests(ast.NodeTransformer):
                                     comparators=[x.left]), node)
         return node
 
+    def visit_Assign(self, node):
+        # x = x + e  (x = e + x for +)  is  x += e
+        self.generic_visit(node)
+        if len(node.targets) == 1 and isinstance(node.targets[0], ast.Name) \
+                and isinstance(node.value, ast.BinOp) \
+                and isinstance(node.value.op, (ast.Add, ast.Sub)):
+            x, v = node.targets[0].id, node.value
+            if isinstance(v.left, ast.Name) and v.left.id == x:
+                return ast.copy_location(ast.AugAssign(
+                    target=ast.Name(id=x, ctx=ast.Store()), op=v.op, value=v.right), node)
+            if isinstance(v.op, ast.Add) and isinstance(v.right, ast.Name) and v.right.id == x \
+                    and isinstance(v.left, ast.Constant) and isinstance(v.left.value, int):
+                return ast.copy_location(ast.AugAssign(
+                    target=ast.Name(id=x, ctx=ast.Store()), op=v.op, value=v.left), node)
+        return node
+
     def visit_If(self, node):
         self.generic_visit(node)
         if node.orelse and not (len(node.orelse) == 1 and isinstance(node.orelse[0], ast.If)):
